@@ -944,6 +944,9 @@ func (e *Exec) convert(x Value, from, to types.Type) Value {
 			return v
 		case SliceVal:
 			// string([]byte) or string([]rune)
+			if v.Back == nil {
+				return StrVal{}
+			}
 			n := int(e.concretize(v.Len))
 			el := fu.(*types.Slice).Elem()
 			if w, _, _ := intW(el); w == 8 {
@@ -1062,6 +1065,7 @@ func (e *Exec) indexAddr(fr *Frame, in *ssa.IndexAddr) {
 		i := int(e.concretize(idx))
 		e.set(fr, in, Ptr{v.C.Sub[i]})
 	case SliceVal:
+		v = normSlice(v)
 		e.boundsCheck(CmpBV(OpULt, idx, v.Len), "runtime error: index out of range")
 		pos := e.concretize(BinBV(OpAdd, v.Off, idx))
 		e.set(fr, in, Ptr{e.cellAt(v.Back, int(pos))})
@@ -1102,7 +1106,7 @@ func (e *Exec) selectIndex(n int, idx *Term, at func(int) Value) Value {
 	if idx.IsConst() {
 		return at(int(idx.C))
 	}
-	if n <= 64 {
+	if n <= 256 {
 		allTerms := true
 		for i := 0; i < n; i++ {
 			if _, ok := at(i).(*Term); !ok {
@@ -1148,6 +1152,7 @@ func (e *Exec) sliceOp(fr *Frame, in *ssa.Slice) {
 		}
 		e.set(fr, in, StrVal{v.B[l:h]})
 	case SliceVal:
+		v = normSlice(v)
 		e.set(fr, in, e.reslice(v.Back, v.Off, v.Len, v.Cap, lo, hi, max))
 	case Ptr: // *array
 		if v.C == nil {
@@ -1222,7 +1227,7 @@ func (e *Exec) makeSlice(fr *Frame, in *ssa.MakeSlice) {
 }
 
 func (e *Exec) sliceToArrayPtr(fr *Frame, in *ssa.SliceToArrayPointer) {
-	v := e.get(fr, in.X).(SliceVal)
+	v := normSlice(e.get(fr, in.X).(SliceVal))
 	at := in.Type().(*types.Pointer).Elem().Underlying().(*types.Array)
 	n := int(at.Len())
 	e.boundsCheck(CmpBV(OpULe, konst(n), v.Len), "runtime error: cannot convert slice to array pointer: length too short")
@@ -1359,7 +1364,7 @@ func (e *Exec) nextOp(fr *Frame, in *ssa.Next) {
 			e.set(fr, in, TupleVal{tTrue, k, v})
 			return
 		}
-		e.set(fr, in, TupleVal{tFalse, zeroValue(tt.At(1).Type()), zeroValue(tt.At(2).Type())})
+		e.set(fr, in, TupleVal{tFalse, zeroOrNil(tt.At(1).Type()), zeroOrNil(tt.At(2).Type())})
 		return
 	}
 	// string: decode UTF-8; symbolic bytes must be decided to be ASCII or the path forks per byte class
@@ -1415,3 +1420,18 @@ func (e *Exec) skipInitFailure(g *Goroutine, r interface{}) {
 }
 
 var verboseInit = false
+
+func normSlice(v SliceVal) SliceVal {
+	if v.Back == nil {
+		z := konst(0)
+		return SliceVal{Off: z, Len: z, Cap: z}
+	}
+	return v
+}
+
+func zeroOrNil(t types.Type) Value {
+	if b, ok := t.(*types.Basic); ok && b.Kind() == types.Invalid {
+		return nil
+	}
+	return zeroValue(t)
+}
